@@ -16,12 +16,42 @@ static ESL_HEAP *HP;
 static ESL_RED_BLACK_DOUBLEKEY *RB;
 static ESL_STACK *ST; static char STYPE = 'i';
 
+/* ---- watchdog: a broken implementation may loop for ever (e.g. a cyclic hash chain). Each case gets a time limit; the
+ * process then dies (the engine reports `fault ...` for the case and restarts after it). After H_MAXHANGS such deaths in one
+ * run (counted in a file of the run's private working directory) the remaining cases are answered `fault hang-limit`
+ * at once, so that a hanging implementation costs a bounded amount of time. */
+#include <signal.h>
+#include <unistd.h>
+#include <fcntl.h>
+#include <sys/stat.h>
+#define H_CASE_SECONDS 40
+#define H_MAXHANGS     3
+#define H_HANGFILE     "c19.hangs"
+static int h_skip_case;
+static void h_on_alarm(int sig)
+{
+  static const char msg[] = "\nhang: case exceeded its time limit (watchdog)\n";
+  int fd = open(H_HANGFILE, O_WRONLY | O_CREAT | O_APPEND, 0600);
+  (void) sig;
+  if (fd >= 0) { if (write(fd, "h", 1) < 0) { } close(fd); }
+  if (write(2, msg, sizeof(msg) - 1) < 0) { }
+  _exit(124);
+}
+static void h_watchdog_begin(void)
+{
+  struct stat st;
+  h_skip_case = (stat(H_HANGFILE, &st) == 0 && st.st_size >= H_MAXHANGS);
+  if (!h_skip_case) { signal(SIGALRM, h_on_alarm); alarm(H_CASE_SECONDS); }
+}
+static void h_watchdog_end(void) { alarm(0); }
+
 static uint64_t fnv(uint64_t h, uint64_t x) { return (h ^ x) * 0x100000001b3ULL; }
 #define FNV0 0xcbf29ce484222325ULL
 
-static void h_case_begin(void) { RBEXP = 0; KH2 = NULL; KH = esl_keyhash_Create(); HP = esl_heap_ICreate(eslHEAP_MIN); RB = NULL; ST = esl_stack_ICreate(); STYPE = 'i'; }
+static void h_case_begin(void) { h_watchdog_begin(); RBEXP = 0; KH2 = NULL; KH = esl_keyhash_Create(); HP = esl_heap_ICreate(eslHEAP_MIN); RB = NULL; ST = esl_stack_ICreate(); STYPE = 'i'; }
 static void h_case_end(void)
 {
+  h_watchdog_end();
   if (KH) esl_keyhash_Destroy(KH); KH = NULL;
   if (KH2) esl_keyhash_Destroy(KH2); KH2 = NULL;
   if (HP) esl_heap_Destroy(HP); HP = NULL;
@@ -127,6 +157,7 @@ static int qcmp(const void *data, int o1, int o2)
 static void h_op(void)
 {
   const char *op = h_words[0];
+  if (h_skip_case) { h_out("fault hang-limit"); return; }
   /* ------------------------------------------------ keyhash */
   if (!strcmp(op, "kh_new")) {
     if (KH) esl_keyhash_Destroy(KH);
